@@ -17,6 +17,8 @@ def desc(e):
         s = "P->%s%s" % (e.get("gate", ""), ("(%s,%s)" % (e.get("w"), e.get("m"))) if "w" in e else "")
     elif a == "PlotEnd":
         s = "PlotEnd(%s)" % e.get("out")
+    elif a == "Api":
+        s = "Api.%s(%s)" % (e.get("call"), e.get("w", ""))
     else:
         s = str(a)
     if "res" in e:
@@ -37,11 +39,12 @@ def mk_scen(behs, seed):
     return out
 
 
-def validate(v, prop, d, scen, traces):
+def validate(v, prop, d, scen, traces, spec="KeeperTrace.tla", cfg="KeeperTrace.cfg"):
     dead = [t for t in traces if t.get("dead")]
     if dead:
         raise vlib.Machinery("driver could not run %d scenarios: %s" % (len(dead), dead[0].get("note")))
-    acc, hw, stats = vlib.tlc_validate(d, "KeeperTrace.tla", "KeeperTrace.cfg", [t["ev"] for t in traces], timeout=1800)
+    acc, hw, stats = vlib.tlc_validate(d, spec, cfg, [t["ev"] for t in traces], timeout=1800)
+    validate.last_out = stats["out"]
     v.cov["traces_validated_against_impl"] += len(traces)
     v.cov["trace_validation_states"] = v.cov.get("trace_validation_states", 0) + stats["states"]
     for i, tag in stats["flags"]:
@@ -59,7 +62,7 @@ def validate(v, prop, d, scen, traces):
         hung = e.get("res") in ("hang", "panic", "died", "plotter-not-exited") or e.get("gate") == "stuck"
         # C09 owns state-machine divergences, C13 owns calls that do not return / panics; each check reports its own
         mine = hung if prop == "C13" else True
-        d_ = "scenario %d: real keeper diverges from Keeper.tla at step %d %s (st=%s chan=%s queue=%s; after: %s)" % (
+        d_ = ("scenario %d: real keeper diverges from " + ("ApiControl.tla / " if spec.startswith("Api") else "") + "Keeper.tla at step %d %s (st=%s chan=%s queue=%s; after: %s)") % (
             t["sc"], k, desc(e), e.get("st"), e.get("chanlen"), e.get("queuelen"), "; ".join(desc(x) for x in evs[max(1, k - 6):k]))
         cause = dict(cause="hang" if hung else "trace_rejected", action=e.get("act") or e.get("a"))
         if mine:
@@ -120,21 +123,58 @@ def run(prop, tier, seed):
         if lo == 0 and traces:
             v.cov["samples"].append([desc(e) for e in traces[0]["ev"]])
     chia(v, prop, d, seed, tier)
+    api_stage(v, prop, d, drv, seed, tier)
     if prop == "C13":
         burst(v, d, drv, seed, tier)
         start_stop_start(v, d, drv, seed)
         concurrent(v, d, drv, seed, tier)
         concurrent(v, d, vlib.build("keeper2drv"), seed, tier, drvname="keeper2drv")
-    v.cov["evaluations"] = len(scen)
+    v.cov["evaluations"] = len(scen) + v.cov.get("evaluations_api", 0)
     v.cov["distinct_nontrivial"] = sum(1 for s in scen if nontrivial(s["steps"]))
     v.cov["traces_accepted"] = total
     v.cov["rule"] = ("behaviours of 30 actions generated by TLC (-simulate, seeded) from KeeperGen.tla over 3 spaces: single and bulk "
                      "plot/mine/stop/remove/delete, keeper start/stop, plotter steps, plot completion/abort; non-trivial = keeper started, "
-                     "at least one API call and one plotter step")
+                     "at least one API call and one plotter step; plus behaviours of ApiGen.tla: the gRPC handlers Plot/Mine/StopCapacitySpace(s) of api.Server "
+                     "over the same keeper (also for unknown ids and removed spaces), validated against ApiTrace.tla")
     v.assumptions = ["plot-DB backend scripted (massdb.DBBackendList entry replaced): a plot ends when and how the scenario says",
                      "plotter goroutine runs under verif-tagged scheduler gates; API calls are issued one at a time between gates",
                      "the window between the plotter's step 1 and the start of Plot() and a keeper stop while an item is popped but not started are not explored"]
     return v.finish()
+
+
+def api_stage(v, prop, d, drv, seed, tier):
+    """the same state machine driven through the gRPC handlers (api/spaces.v1.go): ApiControl.tla is checked by TLC,
+    its behaviours are replayed on api.Server over the real keeper and validated against ApiTrace.tla"""
+    import re
+    if prop == "C09":
+        ma = vlib.tlc_mc(d, "ApiControlMC.tla", "ApiControlq.cfg" if tier == "quick" else "ApiControl.cfg", timeout=1500)
+        vlib.require_mc_ok(ma, "ApiControl (the keeper's invariants and action properties when driven through the handlers)")
+        v.cov["api_states"] = ma["distinct"]
+        mo = vlib.tlc_mc(d, "ApiControlMC.tla", "ApiControlObs.cfg", timeout=600)
+        v.cov["api_observation_mining_without_miner_reachable"] = bool(mo["violated"])
+        log("MC ApiControl: %d distinct states; observation (a space reaches mining while the miner is stopped) reachable: %s" % (ma["distinct"], bool(mo["violated"])))
+    n = 300 if tier == "quick" else 3000
+    behs, w = vlib.tlc_generate(d, "ApiGen.tla", "ApiGen.cfg", n, 31, seed + 31337)
+    scen = []
+    for i, b in enumerate(vlib.dedup(behs)):
+        init = b[0]["st"] if b and b[0].get("a") == "Init" else {}
+        scen.append(dict(sc=60000 + i, seed=seed * 100003 + 60000 + i, steps=b[1:], opt=dict(spaces=3, init=init, api=True)))
+    sf, tf = os.path.join(d, "api.json"), os.path.join(d, "api.ndjson")
+    json.dump(scen, open(sf, "w"))
+    out, w = vlib.run_driver(drv, sf, tf, ["-workers", str(min(vlib.NCPU, 12)), "-stall", "20"], timeout=900)
+    traces = vlib.read_traces(tf)
+    acc = validate(v, prop, d, scen, traces, spec="ApiTrace.tla", cfg="ApiTrace.cfg")
+    notes = []
+    m = re.search(r'<<\s*"NOTES",\s*"((?:[^"\\]|\\.)*)"\s*>>', validate.last_out)
+    if m:
+        notes = json.loads(vlib._unescape_tla(m.group(1)))
+    for x in notes[:5]:
+        log("NOTE (outside the listed properties): scenario %s: %s" % (traces[int(x[0]) - 1]["sc"], x[1]))
+    v.cov["api_scenarios"], v.cov["api_accepted"], v.cov["api_miner_notes"] = len(scen), len(acc), len(notes)
+    v.cov["evaluations_api"] = len(scen)
+    log("api handlers: %d scenarios in %.1fs, %d accepted, %d miner notes" % (len(scen), w, len(acc), len(notes)))
+    if traces:
+        v.cov["samples"].append([desc(e) for e in traces[0]["ev"]][:16])
 
 
 def burst(v, d, drv, seed, tier):
@@ -249,7 +289,10 @@ def replay(prop, path, seed):
     json.dump(scen, open(sf, "w"))
     vlib.run_driver(drv, sf, tf)
     traces = vlib.read_traces(tf)
-    validate(v, prop, d, scen, traces)
+    if r["scenario"].get("opt", {}).get("api"):
+        validate(v, prop, d, scen, traces, spec="ApiTrace.tla", cfg="ApiTrace.cfg")
+    else:
+        validate(v, prop, d, scen, traces)
     v.cov.update(states=1, transitions=1, evaluations=1, distinct_nontrivial=1)
     v.cov["samples"].append([desc(e) for e in traces[0]["ev"]])
     return v.finish()
